@@ -15,13 +15,13 @@ from .common import LX, PB, PL, ckey
 
 P = "C03"
 EXPLANATION = (
-    "Static rules D3.1-D3.8 (DESIGN.md section 5, C03): truth table of Tag.__bool__; request ids assigned by position and "
+    "Static rules D3.1-D3.9 (DESIGN.md section 5, C03): truth table of Tag.__bool__; request ids assigned by position and "
     "stored on every path of the parse loop (post-dominance incl. exceptional edges) with _parse_tag_request converting every "
     "exception to RequestError; path enumeration of one iteration of the result-assembly loops of read/write (every path, "
     "including the exceptional ones into `except Exception`, executes exactly one results.append); the return shape; error "
     "requests skipped when building and reported when assembling (dominance); each request lands in exactly one packet; "
     "results keyed by request id; and the explicit-exception escape set of the build phase over the resolved call graph "
-    "(constructors that raise, path encoding, conversions) plus use-before-None-check of table look-ups. Decides "
+    "(constructors that raise, path encoding, conversions) plus use-before-None-check of table look-ups; per-request methods of a packet shared by merged requests never store the packet-level error. Decides "
     "the structural conditions of '1 result per request, failures isolated'; arbitrary implicit exceptions in user-value handling "
     "are outside."
 )
